@@ -85,15 +85,17 @@ def nextDelay (nth : Nat → Option Int) (pos : Nat) (last : Option Int) : Optio
   | some d => (some d, pos + 1)
   | none => (last, pos)
 
-def cycle (cfg : Delays) (s : Throttler) (t : Int) (i : CycleIn) : CycleOut :=
-  -- 1st sleep
-  let (sl1, s1) : Int × Throttler :=
-    match s.activeUntil with
-    | some u =>
-      let (spent, completed) := aioSleep (u - t) i.wake1
-      (spent, if completed then { s with activeUntil := none } else s)
-    | none => (0, s)
-  let t1 := t + sl1
+/-- The 1st sleep: (ticks spent, throttler afterwards). -/
+def phase1 (s : Throttler) (t : Int) (wake1 : Option Nat) : Int × Throttler :=
+  match s.activeUntil with
+  | some u =>
+    let r := aioSleep (u - t) wake1
+    (r.1, if r.2 then { s with activeUntil := none } else s)
+  | none => (0, s)
+
+/-- Everything after the 1st sleep: `s1` is the throttler then, `t1` the clock, `sl1` the time
+    spent in the 1st sleep. -/
+def phase2 (cfg : Delays) (s1 : Throttler) (t1 : Int) (sl1 : Int) (i : CycleIn) : CycleOut :=
   let shouldRun := s1.activeUntil.isNone
   let executed := shouldRun || i.ran
   let body := if executed then i.body else .success
@@ -110,24 +112,26 @@ def cycle (cfg : Delays) (s : Throttler) (t : Int) (i : CycleIn) : CycleOut :=
         -- only ever driven with this configuration has `src = none`)
         ⟨s1, shouldRun, .typeError, none, sl1, 0, t2⟩
       | .seq nth =>
-        let pos := s1.src.getD 0
-        let (delay, pos') := nextDelay nth pos s1.last
-        match delay with
+        let nd := nextDelay nth (s1.src.getD 0) s1.last
+        match nd.1 with
         | none =>
           -- no delays at all: throttling is not activated, and there is no 2nd sleep
-          ⟨{ s1 with src := some pos' }, shouldRun, .none_, none, sl1, 0, t2⟩
+          ⟨{ s1 with src := some nd.2 }, shouldRun, .none_, none, sl1, 0, t2⟩
         | some d =>
           let u := t2 + d
           -- 2nd sleep (should_run is True here)
-          let (spent, completed) := aioSleep (u - t2) i.wake2
-          let st : Throttler := ⟨some pos', some d, if completed then none else some u⟩
-          ⟨st, shouldRun, .none_, some d, sl1, spent, t2 + spent⟩
+          let r := aioSleep (u - t2) i.wake2
+          ⟨⟨some nd.2, some d, if r.2 then none else some u⟩, shouldRun, .none_, some d, sl1, r.1, t2 + r.1⟩
   | .success =>
     if shouldRun then
       ⟨⟨none, none, none⟩, shouldRun, .none_, none, sl1, 0, t2⟩
     else
       -- still throttled: nothing is reset, and the 2nd sleep is skipped (`and should_run`)
       ⟨s1, shouldRun, .none_, none, sl1, 0, t2⟩
+
+def cycle (cfg : Delays) (s : Throttler) (t : Int) (i : CycleIn) : CycleOut :=
+  let p := phase1 s t i.wake1
+  phase2 cfg p.2 (t + p.1) p.1 i
 
 /-- A sequence of cycles on one throttler; the next cycle starts `gap` ticks after the previous
     one was left. Returns every cycle's output. -/
